@@ -19,9 +19,13 @@ type k2spec struct {
 	recv string // receiver type name ("" for a function)
 	fn   string
 	name string // Coq name
+	from string // fragment: first line (prefix) of the first statement translated ("" = the whole body)
+	to   string // fragment: first line (prefix) of the last statement translated
 }
 
 type m2 struct {
+	body     []ast.Stmt // the statements translated (the whole body, or a fragment of it)
+	bodyNode ast.Node
 	*ctx
 	spec      k2spec
 	sig       *fsig
@@ -212,6 +216,22 @@ func (c *m2) ex(e ast.Expr) string {
 		return "[" + strings.Join(el, "; ") + "]"
 	case *ast.SelectorExpr:
 		return c.fieldRead(e)
+	case *ast.TypeAssertExpr:
+		// x.F.(T), x an abstract object: an abstract projection that may panic (Panic 4)
+		if sel, ok := e.X.(*ast.SelectorExpr); ok && e.Type != nil {
+			if tv, ok := c.p.info.Types[sel.X]; ok && tv.Type != nil && abstractName(tv.Type) != "" {
+				from := mtype{k: mAbs, abs: abstractName(tv.Type)}
+				to := c.tyOf(e)
+				if to.k == mAbs {
+					c.needAbsType(to.abs)
+				}
+				c.needAbsType(from.abs)
+				name := fmt.Sprintf("%s_%s_as_%s", from.abs, sel.Sel.Name, strings.TrimSuffix(to.coq(), "_t"))
+				c.needAbsMeth(name, from.coq()+" -> res "+paren(to.coq()))
+				return c.bind(name + " " + c.ex(sel.X))
+			}
+		}
+		c.fail(e, "unsupported type assertion `%s`", c.srcText(e.Pos(), e.End()))
 	}
 	c.fail(e, "unsupported expression %s `%s`", nodeName(e), c.srcText(e.Pos(), e.End()))
 	return ""
@@ -322,7 +342,10 @@ func (c *m2) bin2(at ast.Node, op token.Token, xe, ye ast.Expr, rt types.Type) s
 				if op == token.SHR {
 					return fmt.Sprintf("(Z.shiftr %s %d%%Z)", x, v)
 				}
-				c.note(at, "`%s`: signed left shift assumed not to overflow", txt)
+				if k.sized {
+					return fmt.Sprintf("(Go.wrapZ %d (Z.shiftl %s %d%%Z))", k.w, x, v)
+				}
+				c.note(at, "`%s`: int left shift assumed not to overflow", txt)
 				return fmt.Sprintf("(Z.shiftl %s %d%%Z)", x, v)
 			}
 		} else {
@@ -340,7 +363,10 @@ func (c *m2) bin2(at ast.Node, op token.Token, xe, ye ast.Expr, rt types.Type) s
 			if op == token.SHR {
 				return fmt.Sprintf("(Z.shiftr %s %s)", x, y)
 			}
-			c.note(at, "`%s`: signed left shift assumed not to overflow", txt)
+			if k.sized {
+				return fmt.Sprintf("(Go.wrapZ %d (Z.shiftl %s %s))", k.w, x, y)
+			}
+			c.note(at, "`%s`: int left shift assumed not to overflow", txt)
 			return fmt.Sprintf("(Z.shiftl %s %s)", x, y)
 		}
 		if op == token.SHR {
@@ -370,7 +396,13 @@ func (c *m2) bin2(at ast.Node, op token.Token, xe, ye ast.Expr, rt types.Type) s
 				if v == 0 {
 					c.fail(at, "division by the constant 0")
 				}
+				if k.sized && op == token.QUO {
+					return fmt.Sprintf("(Go.wrapZ %d (Z.quot %s %s))", k.w, x, y) // MinInt / -1 wraps
+				}
 				return fmt.Sprintf("(Z.%s %s %s)", f, x, y)
+			}
+			if k.sized && op == token.QUO {
+				return fmt.Sprintf("(Go.wrapZ %d %s)", k.w, c.bind(fmt.Sprintf("Go.quotZ %s %s", x, y)))
 			}
 			return c.bind(fmt.Sprintf("Go.%sZ %s %s", f, x, y))
 		case token.AND:
@@ -429,6 +461,10 @@ func (c *m2) un2(e *ast.UnaryExpr) string {
 		x := c.ex(e.X)
 		if k.k == mZ {
 			if e.Op == token.SUB {
+				if k.sized {
+					return fmt.Sprintf("(Go.wrapZ %d (- %s)%%Z)", k.w, x)
+				}
+				c.note(e, "`%s`: int negation assumed not to overflow", c.srcText(e.Pos(), e.End()))
 				return fmt.Sprintf("(- %s)%%Z", x)
 			}
 			return fmt.Sprintf("(Z.lnot %s)", x)
@@ -537,6 +573,13 @@ func (c *m2) call2(e *ast.CallExpr) string {
 	}
 	if path, name, ok := c.pkgCall(e); ok {
 		return c.intrinsic(e, path, name)
+	}
+	// method of an abstract object
+	if ac, ok := c.absCall(e); ok {
+		if ac.mutates || ac.hasErr || len(ac.results) != 1 {
+			c.fail(e, "call of the method `%s` of an abstract object in an expression (it changes the object or has several results: use it as a statement)", c.srcText(e.Pos(), e.End()))
+		}
+		return "(" + ac.text + ")"
 	}
 	// method call on the receiver
 	if sel, ok := e.Fun.(*ast.SelectorExpr); ok {
@@ -669,10 +712,26 @@ func (c *m2) userCall(e *ast.CallExpr, recv, name string, recvId *ast.Ident) str
 	if s.hasErr {
 		c.fail(e, "call of `%s`, which returns an error, outside the pattern `x, err := f(..); if err != nil {..}`", name)
 	}
-	if len(s.results) != 1 {
-		c.fail(e, "call of `%s` with %d results used as a value", name, len(s.results))
+	if s.nGo != 1 {
+		c.fail(e, "call of `%s` with %d results used as a value", name, s.nGo)
 	}
 	call := c.callText(e, s)
+	if len(s.wfields) > 0 {
+		// the callee returns the fields it wrote after its result: rebind them here
+		t := c.fresh()
+		names := []string{t}
+		for _, w := range s.wfields {
+			c.addWFieldT(w, s.wfieldTy[w])
+			names = append(names, w)
+		}
+		if s.fallible {
+			c.effect = true
+			c.pend = append(c.pend, fmt.Sprintf("do (%s) <- %s ;;", strings.Join(names, ", "), call))
+		} else {
+			c.pend = append(c.pend, fmt.Sprintf("let '(%s) := %s in", strings.Join(names, ", "), call))
+		}
+		return t
+	}
 	if s.fallible {
 		return c.bind(call)
 	}
@@ -684,6 +743,13 @@ func (c *m2) callText(e *ast.CallExpr, s *fsig) string {
 	if s.fuel {
 		c.usesFuel = true
 		parts = append(parts, "fuel")
+	}
+	for _, t := range s.absTypes {
+		c.needAbsType(t)
+	}
+	for _, m := range s.absMeths {
+		c.needAbsMeth(m.name, m.coq)
+		parts = append(parts, m.name)
 	}
 	for i, f := range s.fields {
 		parts = append(parts, c.useField(f, s.fieldTy[i], e))
@@ -716,6 +782,154 @@ func (c *m2) k1Call(e *ast.CallExpr, name string) string {
 }
 
 // ---------------------------------------------------------------------------
+// abstract objects: obj.M(args) becomes T_M obj args, T_M a parameter of the generated definition
+
+type absCallInfo struct {
+	text    string // T_M obj args
+	obj     string // Coq name of the object
+	mutates bool
+	hasErr  bool
+	results []mtype
+}
+
+// absPeek recognises obj.M(..) on an abstract object without translating anything
+func (c *m2) absPeek(e *ast.CallExpr) (tname string, sel *ast.SelectorExpr, sig *types.Signature, mutates bool, ok bool) {
+	sel, isSel := e.Fun.(*ast.SelectorExpr)
+	if !isSel {
+		return
+	}
+	tv, has := c.p.info.Types[sel.X]
+	if !has || tv.Type == nil || tv.IsType() {
+		return
+	}
+	tname = abstractName(tv.Type)
+	if tname == "" {
+		return
+	}
+	ft, has := c.p.info.Types[e.Fun]
+	if !has {
+		return
+	}
+	sig, isSig := ft.Type.(*types.Signature)
+	if !isSig {
+		return
+	}
+	_, isIface := tv.Type.Underlying().(*types.Interface)
+	mutates = !isIface && !abstractPure[tname+"."+sel.Sel.Name]
+	return tname, sel, sig, mutates, true
+}
+
+func (c *m2) needAbsType(n string) {
+	for _, x := range c.sig.absTypes {
+		if x == n {
+			return
+		}
+	}
+	c.sig.absTypes = append(c.sig.absTypes, n)
+}
+
+func (c *m2) needAbsMeth(name, coq string) {
+	for _, x := range c.sig.absMeths {
+		if x.name == name {
+			if x.coq != coq {
+				panic(transErr{c.p.fset.Position(c.fn.Pos()), fmt.Sprintf("abstract method %s used at two different types (%s / %s)", name, x.coq, coq)})
+			}
+			return
+		}
+	}
+	c.sig.absMeths = append(c.sig.absMeths, absMeth{name, coq})
+}
+
+// absObj: Coq name of the abstract object denoted by e (a local variable or a field path)
+func (c *m2) absObj(e ast.Expr, t mtype, mutated bool) string {
+	c.needAbsType(t.abs)
+	if p, ok := c.fieldPath(e); ok {
+		if _, isId := e.(*ast.Ident); !isId {
+			n := c.useField(p, t, e)
+			if mutated {
+				c.addWFieldT(n, t)
+			}
+			return n
+		}
+	}
+	id, ok := e.(*ast.Ident)
+	if !ok || !c.isLocal(c.obj(id)) {
+		c.fail(e, "unsupported abstract object expression `%s`", c.srcText(e.Pos(), e.End()))
+	}
+	n := coqName(id.Name)
+	if mutated {
+		c.addWFieldT(n, t)
+	}
+	return n
+}
+
+func (c *m2) absCall(e *ast.CallExpr) (*absCallInfo, bool) {
+	tname, sel, sig, mutates, ok := c.absPeek(e)
+	if !ok {
+		return nil, false
+	}
+	if e.Ellipsis.IsValid() {
+		c.fail(e, "variadic call")
+	}
+	ot := mtype{k: mAbs, abs: tname}
+	info := &absCallInfo{mutates: mutates}
+	info.obj = c.absObj(sel.X, ot, mutates)
+	fname := tname + "_" + sel.Sel.Name
+	parts := []string{fname, info.obj}
+	tys := []string{ot.coq()}
+	for _, a := range e.Args {
+		at := c.tyOf(a)
+		if at.k == mAbs {
+			c.needAbsType(at.abs)
+		}
+		parts = append(parts, c.ex(a))
+		tys = append(tys, paren(at.coq()))
+	}
+	var rts []string
+	for i := 0; i < sig.Results().Len(); i++ {
+		rt := sig.Results().At(i).Type()
+		if isErrorType(rt) {
+			if i != sig.Results().Len()-1 {
+				c.fail(e, "error result that is not the last")
+			}
+			info.hasErr = true
+			continue
+		}
+		var m mtype
+		if it, isI := rt.Underlying().(*types.Interface); isI && it.NumMethods() == 0 {
+			m = mtype{k: mUnit} // an `any` result: its value is dropped
+		} else {
+			m = c.mt(rt, e)
+		}
+		if m.k == mAbs {
+			c.needAbsType(m.abs)
+		}
+		info.results = append(info.results, m)
+		rts = append(rts, paren(m.coq()))
+	}
+	if mutates {
+		rts = append(rts, ot.coq())
+	}
+	if len(rts) == 0 {
+		c.fail(e, "method `%s` of an abstract object without result and without effect", sel.Sel.Name)
+	}
+	r := strings.Join(rts, " * ")
+	if info.hasErr {
+		r = "res (" + r + ")"
+	}
+	c.needAbsMeth(fname, strings.Join(tys, " -> ")+" -> "+r)
+	info.text = strings.Join(parts, " ")
+	return info, true
+}
+
+func paren(s string) string {
+	if strings.Contains(s, " ") {
+		return "(" + s + ")"
+	}
+	return s
+}
+
+// ---------------------------------------------------------------------------
 // receiver fields: each path read becomes a parameter
 
 func (c *m2) fieldPath(e ast.Expr) (string, bool) {
@@ -723,6 +937,19 @@ func (c *m2) fieldPath(e ast.Expr) (string, bool) {
 	case *ast.Ident:
 		if c.recvObj != nil && c.obj(e) == c.recvObj {
 			return e.Name, true
+		}
+		// a local struct (or pointer to struct) that is not looked into otherwise: its fields are parameters
+		if o := c.obj(e); o != nil && c.isLocal(o) {
+			t := o.Type()
+			if abstractName(t) != "" {
+				return "", false
+			}
+			if pt, ok := t.Underlying().(*types.Pointer); ok {
+				t = pt.Elem()
+			}
+			if _, ok := t.Underlying().(*types.Struct); ok {
+				return e.Name, true
+			}
 		}
 	case *ast.SelectorExpr:
 		if p, ok := c.fieldPath(e.X); ok {
@@ -779,7 +1006,12 @@ func (c *m2) nilCmp(at ast.Node, op token.Token, xe ast.Expr) string {
 		c.fail(at, "ordering comparison with nil")
 	}
 	var r string
-	if p, ok := c.fieldPath(xe); ok {
+	if tv, ok := c.p.info.Types[xe]; ok && tv.Type != nil && abstractName(tv.Type) != "" {
+		t := mtype{k: mAbs, abs: abstractName(tv.Type)}
+		c.needAbsType(t.abs)
+		c.needAbsMeth(t.abs+"_isnil", t.coq()+" -> bool")
+		r = fmt.Sprintf("(%s_isnil %s)", t.abs, c.ex(xe))
+	} else if p, ok := c.fieldPath(xe); ok {
 		if _, isPtr := c.typeOf(xe).Underlying().(*types.Pointer); isPtr {
 			r = c.useField(p+"_isnil", mtype{k: mBool}, at)
 		}
